@@ -180,3 +180,282 @@ def gen_pace(rng, idx):
                 known[g] = now
     toks += [str(len(evs))] + evs
     return " ".join(toks), sorted(tags)
+
+
+# ---- configuration cases: the real Coordinator.Configure, then the loop it configured -------------------------------
+
+DEFAULT_INTERVAL = 60
+NO_MODULE_INTERVAL = 310536000
+MAX_INTERVAL = 9223372036          # largest interval with interval * 10^9 < 2^63 (time.Duration)
+LARGE_INTERVAL = 7000000000        # large, and T0 + interval * 10^9 still a valid UnixNano clock value
+I64_MAX = 2**63 - 1
+
+
+def _tokval(tok):
+    if tok == "-":
+        return None
+    return int(tok[1:]) if tok[0] in "LFS" else int(tok)
+
+
+def parse_cfg(case):
+    """cfg <src> <root> <slow> <nm> {id class iv sv th}* <now0> <ng> {g le}* <nev> events"""
+    f = case.split()
+    assert f[0] == "cfg"
+    c = {"src": f[1], "root": f[2], "slow": f[3] == "1", "mods": [], "groups": [], "events": []}
+    i = 4
+    nm = int(f[i]); i += 1
+    for _ in range(nm):
+        c["mods"].append({"id": f[i], "class": f[i + 1], "iv": _tokval(f[i + 2]), "sv": _tokval(f[i + 3]),
+                          "th": _tokval(f[i + 4]), "toks": f[i + 2:i + 5]})
+        i += 5
+    c["now0"] = int(f[i]); i += 1
+    ng = int(f[i]); i += 1
+    for _ in range(ng):
+        c["groups"].append((f[i], int(f[i + 1]))); i += 2
+    nev = int(f[i]); i += 1
+    for _ in range(nev):
+        k = f[i]
+        if k in ("k", "t"):
+            c["events"].append((k, int(f[i + 1]))); i += 2
+        elif k in ("e", "x"):
+            c["events"].append((k,)); i += 1
+        elif k == "r":
+            n = int(f[i + 2])
+            lst = [(f[i + 3 + 2 * j], int(f[i + 4 + 2 * j])) for j in range(n)]
+            c["events"].append(("r", int(f[i + 1]), lst)); i += 3 + 2 * n
+        else:
+            raise ValueError("bad cfg event " + k)
+    return c
+
+
+def shortest_configured(mods):
+    """The property's reference value, from the configuration alone: the minimum over the configured notifier modules of
+    their interval (a module without the key has the documented default, 60 s).  None when no module is configured."""
+    if not mods:
+        return None
+    return min(DEFAULT_INTERVAL if m["iv"] is None else m["iv"] for m in mods)
+
+
+def cfg_line(src, root, slow, mods, now0, groups, events):
+    toks = ["cfg", src, root, "1" if slow else "0", str(len(mods))]
+    for m in mods:
+        toks += [str(m["id"]), m["class"]] + list(m["toks"])
+    toks += [str(now0), str(len(groups))]
+    for g, le in groups:
+        toks += [str(g), str(le)]
+    toks.append(str(len(events)))
+    for e in events:
+        if e[0] in ("k", "t"):
+            toks += [e[0], str(e[1])]
+        elif e[0] == "r":
+            toks += ["r", str(e[1]), str(len(e[2]))] + ["%s %d" % (g, d) for g, d in e[2]]
+        else:
+            toks.append(e[0])
+    return " ".join(toks)
+
+
+def focus_case(case_or_mods, src="set"):
+    """The shortest scenario that separates every wrong pace from the configured one: one group, due when the lock is
+    granted at T0; not due again exactly `shortest` seconds later; due one nanosecond after that."""
+    mods = parse_cfg(case_or_mods)["mods"] if isinstance(case_or_mods, str) else case_or_mods
+    if isinstance(case_or_mods, str):
+        src = parse_cfg(case_or_mods)["src"]
+    exp = shortest_configured(mods)
+    if exp is None or exp < 0 or exp > MAX_INTERVAL:
+        return None
+    now = min(T0, I64_MAX - exp * NS - 10)
+    return cfg_line(src, "/burrow", False, mods, now, [(1, now - exp * NS - 1)],
+                    [("k", now), ("t", now + exp * NS), ("t", now + exp * NS + 1)])
+
+
+def _fmt_val(rng, v):
+    r = rng.random()
+    if r < 0.72:
+        return str(v)
+    if r < 0.86:
+        return "L%d" % v
+    if r < 0.93 and abs(v) < 2**50:
+        return "F%d" % v
+    return "S%d" % v
+
+
+def gen_mods(rng):
+    nm = rng.choice([0, 1, 1, 2, 2, 2, 2, 3, 3, 3, 4, 4])
+    base = rng.choice([0, 1, 2, 5, 30, 59, 60, 61, 300, 1000, LARGE_INTERVAL, MAX_INTERVAL])
+    ids = rng.sample(range(1, 10), nm)
+    mods = []
+    for k in range(nm):
+        r = rng.random()
+        if r < 0.25:
+            iv = None
+        elif r < 0.72:
+            iv = min(MAX_INTERVAL, max(0, base + rng.choice([-1, 0, 0, 1, 2, 7])))
+        elif r < 0.97:
+            iv = rng.choice([0, 1, 5, 30, 59, 60, 61, 120, 300, 3600, 86400, LARGE_INTERVAL, MAX_INTERVAL])
+        else:
+            iv = -rng.choice([1, 5, 60])
+        r = rng.random()
+        if r < 0.35:
+            sv = None
+        elif r < 0.6:
+            sv = rng.choice([0, 1, 2, 3, 5, 10])
+        else:
+            sv = max(0, rng.choice([30, 60, 300, 3600, base - 1, base + 1, 2 * base + 1, 86400]))
+        th = rng.choice([None, None, 1, 2, 3])
+        toks = ["-" if v is None else _fmt_val(rng, v) for v in (iv, sv, th)]
+        mods.append({"id": ids[k], "class": rng.choice(["null", "null", "http", "email"]), "iv": iv, "sv": sv, "th": th,
+                     "toks": toks})
+    return mods
+
+
+def cfg_tags(mods):
+    """What the configuration can tell apart (counted in the input distribution)."""
+    tags = ["nm=%d" % len(mods)]
+    exp = shortest_configured(mods)
+    if exp is None:
+        return tags + ["no-module"]
+    eff = [DEFAULT_INTERVAL if m["iv"] is None else m["iv"] for m in mods]
+    effs = [m["sv"] if m["sv"] is not None else e for m, e in zip(mods, eff)]
+    byname = [e for _, e in sorted(zip([str(m["id"]) for m in mods], eff))]
+    if exp < 0:
+        tags.append("negative-interval")
+    if exp == 0:
+        tags.append("zero-interval")
+    if exp == MAX_INTERVAL:
+        tags.append("largest-interval")
+    if any(m["iv"] is None for m in mods):
+        tags.append("interval-absent")
+        if exp == DEFAULT_INTERVAL and all(m["iv"] is None or m["iv"] > DEFAULT_INTERVAL for m in mods):
+            tags.append("shortest-is-the-default")
+    wrong = {
+        "send-interval": min(effs),
+        "max": max(eff),
+        "first-by-name": byname[0],
+        "last-by-name": byname[-1],
+        "first-listed": eff[0],
+        "last-listed": eff[-1],
+        "default-after-read": min(0 if m["iv"] is None else m["iv"] for m in mods),
+        "always-default": DEFAULT_INTERVAL,
+    }
+    for k, v in wrong.items():
+        if v != exp:
+            tags.append("separates:" + k)
+    return tags
+
+
+def gen_cfg(rng, idx, scenario=True):
+    """One configuration (0-4 modules) and, with scenario=True, a run of the loop it configures: lock grant at T, the
+    two ticks at T + shortest and T + shortest + 1 ns for a group that was due at T, then a random mix of ticks
+    (boundary-directed), group-list refreshes, expiries, lock errors and re-acquisitions."""
+    mods = gen_mods(rng)
+    src = rng.choice(["set", "toml"])
+    root = rng.choice(["/burrow", "/burrow", "/b%d" % idx, "/a/b"])
+    exp = shortest_configured(mods)
+    mi = NO_MODULE_INTERVAL if exp is None else exp
+    tags = set(cfg_tags(mods))
+    tags.add("src=" + src)
+    now = T0 + rng.randrange(0, 10**6) * MS
+    if not scenario or mi < 0 or now + mi * NS + 10 > I64_MAX:
+        tags.add("config-only")
+        return cfg_line(src, root, False, mods, now, [], []), sorted(tags)
+    slow = rng.random() < 0.35
+    if slow:
+        tags.add("slow-evaluator")
+    ng = rng.randrange(1, 5)
+    ids = rng.sample(range(1, 10), ng)
+    groups = {ids[0]: now - mi * NS - 1 - rng.choice([0, 0, 1, NS])}
+    for g in ids[1:]:
+        groups[g] = now - mi * NS + rng.choice([-NS, -1, 0, 1, NS, -rng.randrange(0, mi * NS + 1), mi * NS // 2])
+    now0 = now
+    known = dict(groups)
+    evs = []
+    gate = False
+    phase = "L"          # L: Lock() pending, E: evaluating, U: Unlock() pending
+
+    def tick(t):
+        for g in known:
+            if known[g] < t - mi * NS:
+                known[g] = t
+
+    if rng.random() < 0.15:
+        evs.append(("e",)); tags.add("lockerr")
+    evs.append(("k", now)); gate = True; phase = "E"; tick(now)
+    now += mi * NS
+    evs.append(("t", now)); tick(now)
+    now += 1
+    evs.append(("t", now)); tick(now)
+    for _ in range(rng.randrange(2, 8)):
+        r = rng.random()
+        if phase == "E":
+            if r < 0.12:
+                evs.append(("x",)); gate = False; phase = "U"; tags.add("expiry")
+                continue
+            if r < 0.27 and (mi > 0 or rng.random() < 0.15):
+                pres = [g for g in known if rng.random() < 0.7]
+                newc = [g for g in range(1, 10) if g not in known and rng.random() < 0.25]
+                lst = []
+                for g in pres + newc:
+                    draw = rng.randrange(0, mi * 1000) if mi > 0 else 0
+                    if mi > 0 and rng.random() < 0.3:
+                        draw = rng.choice([0, mi * 1000 - 1])
+                    lst.append((g, draw))
+                rng.shuffle(lst)
+                evs.append(("r", now, lst))
+                tags.add("refresh")
+                if newc:
+                    tags.add("refresh-new")
+                if len(pres) < len(known):
+                    tags.add("refresh-drop")
+                known = {g: known.get(g, now - d * MS) for g, d in lst}
+                if mi <= 0 and newc:
+                    tags.add("refresh-panic")
+                    break
+                continue
+        else:
+            if r < 0.1:
+                evs.append(("x",)); tags.add("lost-broadcast")
+                continue
+            if r < 0.2:
+                evs.append(("e",)); phase = "L"; tags.add("lockerr")
+                continue
+        # advance the clock: to a boundary of some group, by a fraction of the interval, or not at all
+        q = rng.random()
+        if q < 0.5 and known:
+            g = rng.choice(sorted(known))
+            target = known[g] + mi * NS + rng.choice([-1, 0, 1, 1, 2])
+            if target >= now:
+                now = target
+        elif q < 0.85:
+            now += rng.choice([1, MS, NS, mi * NS // 2, mi * NS, mi * NS + 1, 2 * mi * NS + 5])
+        if now > I64_MAX:
+            break
+        if phase == "E" or r < 0.55:
+            evs.append(("t", now))
+            if gate:
+                tick(now)
+            else:
+                tags.add("tick-without-lock")
+        else:
+            evs.append(("k", now)); gate = True; phase = "E"; tick(now); tags.add("relock")
+    return cfg_line(src, root, slow, mods, now0, sorted(groups.items()), evs), sorted(tags)
+
+
+# one null module with interval 0: the configuration of the loop scenarios (heartbeat)
+LOOP_CFG = cfg_line("set", "/burrow", False, [{"id": 1, "class": "null", "iv": 0, "sv": None, "th": 1, "toks": ["0", "-", "1"]}],
+                    T0, [], [])
+
+
+def _m(i, cls, iv, sv, th):
+    return {"id": i, "class": cls, "iv": iv, "sv": sv, "th": th, "toks": ["-" if v is None else str(v) for v in (iv, sv, th)]}
+
+
+FIXED_CFG = [
+    # the Example of props/C15.v: intervals 30 / 60, send-intervals 300 / 5
+    focus_case([_m(1, "null", 30, 300, None), _m(2, "http", 60, 5, 1)], "toml"),
+    focus_case([_m(2, "null", 30, 300, None), _m(1, "email", 60, 5, 1)], "set"),
+    # the shortest interval is a default; no module; one module with everything absent
+    focus_case([_m(3, "null", None, 5, None), _m(4, "null", 61, None, None)], "toml"),
+    cfg_line("toml", "/burrow", False, [], T0, [], []),
+    focus_case([_m(5, "email", None, None, None)], "set"),
+    focus_case([_m(5, "null", 0, None, None), _m(6, "null", None, None, None)], "set"),
+]
